@@ -25,6 +25,33 @@ def cleanAfter (k : EnvId) (keep : Bool) (v : View) : Bool :=
     hooks of the environment sit at one weight at most. -/
 def singleWeight (hs : List HookRef) : Bool := decide ((weightsOf hs).length ≤ 1)
 
+/-- Well-formedness of the bookkeeping around environment `k` with task references `tasks`
+    (it holds of every listed, not torn environment in every reachable state: `C06_wellformed`):
+    a roster task whose parent is `k` is one of `tasks`; the roster entries of `tasks` carry `k`
+    as parent and complete ids; every task launched for `k` is one of `tasks` and has a roster
+    entry; roster ids are unique; of the calls started for `k` every one is either pending or
+    was cancelled, and no deleted environment carried the id before. -/
+def envWf (s : State) (k : EnvId) (tasks : List TaskId) : Bool :=
+  s.roster.all (fun t => decide (t.parent ≠ some k) || decide (t.id ∈ tasks))
+  && s.roster.all (fun t => decide (t.id ∉ tasks) || (decide (t.parent = some k) && t.idsOk))
+  && s.master.all (fun m => decide (m.label ≠ k) || (decide (m.id ∈ tasks) && s.roster.any (fun t => decide (t.id = m.id))))
+  && decide (s.roster.map (·.id)).Nodup
+  && s.envs.all (fun X => decide (X.id ≠ k) || decide (X.started = X.cancelled + X.pending))
+  && s.dead.all (fun d => decide (d.1 ≠ k))
+
+/-- Hypothesis excluded by finding launch_pending_leak: a task of the environment that the core
+    believes inactive has really ended. (After a successful creation it holds: the deployment
+    waited for every task to become ACTIVE. It fails when a deployment is given up while tasks
+    are still starting.) -/
+def statusFaithful (s : State) (tasks : List TaskId) : Bool :=
+  s.roster.all (fun t => decide (t.id ∉ tasks) || t.active
+    || s.master.all (fun m => decide (m.id ≠ t.id) || decide (m.mesos = .terminal)))
+
+/-- Hypothesis excluded by finding destroy_hooks_unreleased: the DESTROY / after_DESTROY hook
+    tasks sit at one weight at most and their roles are ACTIVE. -/
+def hooksReleasable (s : State) (hooks : List HookRef) : Bool :=
+  singleWeight hooks && (effHooks hooks).all (roleActive s)
+
 /-- What a round's operation obliges the view after the round to satisfy. -/
 inductive Claim where
   | clean (k : EnvId) (keep : Bool)    -- a destroy that returned success / a creation that failed
